@@ -1892,7 +1892,8 @@ class Interp:
         # assumed (external/opaque) contracts matched by call text
         if self.contract is not None and ftxt in self.contract.assumed:
             args = [self.eval(a, env) for a in e.args if not isinstance(a, ast.Starred)]
-            return self.apply_assumed(self.contract.assumed[ftxt], ftxt, env, args)
+            kws = {k.arg: self.eval(k.value, env) for k in e.keywords if k.arg is not None}
+            return self.apply_assumed(self.contract.assumed[ftxt], ftxt, env, args, kws)
         if isinstance(f, ast.Name) and f.id == 'super':
             raise Unsupported('bare super()')
         if isinstance(f, ast.Attribute) and isinstance(f.value, ast.Call) and \
@@ -2025,14 +2026,17 @@ class Interp:
         from .verify import apply_callee_contract
         return apply_callee_contract(self, cands, mod, cname, fn, args, kwargs, ftxt)
 
-    def apply_assumed(self, a, ftxt, env, args=()):
+    def apply_assumed(self, a, ftxt, env, args=(), kwargs=None):
         """Assumed contract: havoc modifies, fresh result, assume ensures; may raise."""
         ctx = self.ctx
         self.assumed_used.append(ftxt)
         self.last_assumed_args = list(args)       # actual arguments, for ghost callbacks
+        self.last_assumed_kwargs = dict(kwargs or {})
         cenv = self.clause_env(env)
         for i, v in enumerate(args):
             cenv['arg%d' % i] = v
+        for k, v in (kwargs or {}).items():
+            cenv['kw_' + k] = v
         for r in a.requires:
             self.prove_clauses([r], cenv, 'pre@callee', ftxt)
         if a.may_raise:
@@ -2046,6 +2050,10 @@ class Interp:
         pre = snapshot(cenv, {})
         for path in a.modifies:
             self.havoc_target(ast.parse(path, mode='eval').body, cenv)
+        for path, sp in getattr(a, 'sets', {}).items():
+            from .verify import instantiate
+            fresh_v = instantiate(self, sp, ctx.fresh_name('set'), {}, self.sizes)
+            self.assign(ast.parse(path, mode='eval').body, fresh_v, cenv)
         res = None
         if a.returns_expr is not None:
             res = self.eval(self.parse_clause(a.returns_expr), cenv)
@@ -2056,6 +2064,8 @@ class Interp:
         cenv2 = self.clause_env(env)
         for i, v in enumerate(args):
             cenv2['arg%d' % i] = v
+        for k, v in (kwargs or {}).items():
+            cenv2['kw_' + k] = v
         cenv2['result'] = res
         saved = self.old_env
         self.old_env = pre
